@@ -481,6 +481,41 @@ fn raw_record_universe(us: &[Box<dyn crate::universes::RawUniverse>], sink: &Sin
     total
 }
 
+/// Long digit runs: every rank of a record prefixed / suffixed by d repeated n times (d in 1 2 4 8 9,
+/// n = 1..=300 and a few very long runs): a rank whose files add up to 8 + 256k or 8 + 65536k must
+/// still be rejected (cursor arithmetic in a narrow integer).
+fn long_rank_universe(corpus: &[Pos], sink: &Sink) -> Tally {
+    let jobs: Vec<(usize, usize)> = (0..corpus.len()).flat_map(|c| (0..8usize).map(move |r| (c, r))).collect();
+    jobs.par_iter()
+        .fold(Tally::default, |mut t, &(ci, rank_idx)| {
+            let record = to_fen(&corpus[ci], true);
+            let (placement, rest) = record.split_once(' ').unwrap();
+            let ranks: Vec<&str> = placement.split('/').collect();
+            let mut lens: Vec<usize> = (1..=300).collect();
+            lens.extend([512, 1024, 2048, 4096, 8192, 16384, 32768, 65536]);
+            for d in ['1', '2', '4', '8', '9'] {
+                for &n in &lens {
+                    if n > 300 && !(d == '8' || d == '1') {
+                        continue;
+                    }
+                    let run: String = std::iter::repeat(d).take(n).collect();
+                    for front in [true, false] {
+                        let mut v: Vec<String> = ranks.iter().map(|x| x.to_string()).collect();
+                        v[rank_idx] = if front { format!("{}{}", run, ranks[rank_idx]) } else { format!("{}{}", ranks[rank_idx], run) };
+                        let text = format!("{} {}", v.join("/"), rest);
+                        t.states += 1;
+                        t.evals += 1;
+                        for e in Entry::ALL {
+                            check_text(&text, e, None, sink, &mut t);
+                        }
+                    }
+                }
+            }
+            t
+        })
+        .reduce(Tally::default, Tally::merge)
+}
+
 fn short_universe(sink: &Sink) -> Tally {
     let alpha40 = crate::props::pure::ALPHA40;
     alpha40
@@ -537,6 +572,10 @@ fn run_c08(run: &mut Run) {
     ];
     let t = raw_record_universe(&raws, &run.sink);
     run.add("T-FENRAW", json!({"records_of": "S-CASTLE (incl. king off the back rank, every subset of rights), one-edit neighbours of corpus boards (S-EDIT), S-EP(small)", "expectation": "field named when exactly one of castling / en passant / half-move / full-move is unsupported and the record is otherwise accepted"}), true, t0, t);
+    let t0 = Instant::now();
+    let lc: Vec<Pos> = corpus.iter().take(if q { 2 } else { 12 }).cloned().collect();
+    let t = long_rank_universe(&lc, &run.sink);
+    run.add("T-FENLONG", json!({"records": lc.len(), "ranks": 8, "digit": "1 2 4 8 9", "run_lengths": "1..=300 (all digits), 512..65536 by powers of two (digits 1 and 8)", "position": "before and after the rank"}), true, t0, t);
     let t0 = Instant::now();
     let t = short_universe(&run.sink);
     run.add("T-SHORT", json!({"alphabet": 40, "max_len": 3}), true, t0, t);
